@@ -54,10 +54,13 @@ def full_options():
     }
 
 
-def _b(bid, doc, platforms=(None,), dowhile=None, nonc=(), files=None, shape_only=False):
+def _b(bid, doc, platforms=(None,), dowhile=None, nonc=(), files=None, shape_only=False, uservars=None):
     """shape_only: the base is there for its references / identifiers / variables; its option keys are the ones
     every other base has, so the key and type families are enumerated for it in the thorough tier only."""
-    return {'id': bid, 'root': {'doc': doc, 'dowhile': dowhile}, 'platforms': list(platforms), 'nonc': list(nonc),
+    root = {'doc': doc, 'dowhile': dowhile}
+    if uservars is not None:
+        root['uservars'] = uservars     # loaded with variable_files=[...]; only the factory entry point takes them
+    return {'id': bid, 'root': root, 'platforms': list(platforms), 'nonc': list(nonc),
             'files': dict(files or {}), 'shape_only': shape_only}
 
 
@@ -221,6 +224,21 @@ def bases():
                        comp('collect', 2, ['stage1.sweep:ref'], workflowAttributes={'aggregate': True}),
                        comp('gather', 2, ['stage1.probe:ref'], workflowAttributes={'aggregate': True})]},
         shape_only=True))
+    # -- variables that only the user supplies (variable_files= of the loader): for all stages, per stage
+    out.append(_b('b30-user-variables-file', {
+        'variables': {'default': {'global': {'greeting': 'hello'}}},
+        'components': [comp('prepare', args='%(greeting)s %(dataset)s %(tol)s'),
+                       comp('simulate', 1, ['stage0.prepare:ref'], args='%(dataset)s'),
+                       comp('analyse', 2, ['stage1.simulate:ref'], args='%(greeting)s %(late)s %(tol)s')]},
+        uservars={'global': {'tol': 0.5},
+                  'stages': {0: {'dataset': 'water'}, 1: {'dataset': 'ice'}, 2: {'late': 'x'}}}, shape_only=True))
+    out.append(_b('b31-user-variables-file-platform', {
+        'platforms': ['default', 'plat'],
+        'variables': {'default': {'global': {'g': 'd'}, 'stages': {1: {'s1': 'one'}}}, 'plat': {'global': {'g': 'p'}}},
+        'components': [comp('A', args='%(g)s %(u0)s %(both)s'), comp('B', 1, ['stage0.A:ref'], args='%(s1)s %(u1)s %(both)s'),
+                       comp('C', 1, ['B:ref'], args='%(g)s')]},
+        platforms=(None, 'plat'),
+        uservars={'stages': {0: {'u0': 'a', 'both': 'x'}, 1: {'u1': 'b', 'both': 'y'}}}, shape_only=True))
     return out
 
 
@@ -331,6 +349,8 @@ def apply(root, mut):
 def _wrong_values(t, thorough=False):
     scalar_str = [[WRONG], {WRONG: 1}]
     scalar_other = [WRONG, [WRONG]] + ([{WRONG: 1}] if thorough else [])
+    if getattr(t, 'kind', None) == 'int':
+        scalar_other = scalar_other + [2.5]      # a number, but not an integer
     if t == 'section':
         return [WRONG, [WRONG]]
     if t == 'list':
